@@ -110,14 +110,15 @@ theorem C08_plan_unique {T : Times} {fl : List Func} {n : Nat} {p q : List Entry
 theorem C08_clock {T : Times} {fl : List Func} {n : Nat} {p : List Entry} (hp : IsPlan T fl p)
     (hS : Separated T fl n) (hO : Ordered fl n) (hM : T.StrictMono) (hF : FinishLast fl)
     (hE : ∀ f ∈ fl, ∃ fm ∈ fl, fm.owner = f.owner ∧ fm.finish = true) :
-    ∀ ec ∈ trace (fun _ => 0) p, ec.2 = ec.1.k := by
+    ∀ ec ∈ trace [] p, ec.2 = ec.1.k := by
   rintro ⟨e, c⟩ hec
   obtain ⟨pre, post, hsplit, hc⟩ := trace_mem hec
   have hmem : e ∈ p := by rw [hsplit]; simp
   obtain ⟨f, hf, k, hk, rfl⟩ := mem_cross.1 (hp.1.subset hmem)
   obtain ⟨fm, hfm, how, hfin⟩ := hE f hf
   simp only at hc ⊢
-  rw [hc, Nat.zero_add, countP_prefix (plan_strict hp hS hO hM) hsplit, hp.1.countP_eq, ← how,
+  have h0 : getClk [] f.owner = 0 := by simp [getClk]
+  rw [hc, h0, Nat.zero_add, countP_prefix (plan_strict hp hS hO hM) hsplit, hp.1.countP_eq, ← how,
     countP_cross_finish hF hfm hfin]
   have hcong : (List.range (T.npts fm.owner)).countP
       (fun j => decide ((⟨T.tv fm.owner j, fm.order, fm.owner, fm.finish, j, fm.row⟩ : Entry).key <
@@ -157,10 +158,12 @@ theorem C08_clock {T : Times} {fl : List Func} {n : Nat} {p : List Entry} (hp : 
     adjustment it reads the final index `npts − 1`.  (No separation needed.) -/
 theorem C08_final_clocks {T : Times} {fl : List Func} {p : List Entry} (hp : IsPlan T fl p)
     (hF : FinishLast fl) {fm : Func} (hfm : fm ∈ fl) (hfin : fm.finish = true) :
-    finalClocks (fun _ => 0) p fm.owner = T.npts fm.owner ∧
-    afterRun (finalClocks (fun _ => 0) p) fm.owner = (T.npts fm.owner : Int) - 1 := by
-  have h : finalClocks (fun _ => 0) p fm.owner = T.npts fm.owner := by
-    rw [finalClocks_eq, Nat.zero_add, hp.1.countP_eq]
+    getClk (finalClocks [] p) fm.owner = T.npts fm.owner ∧
+    afterRun (finalClocks [] p) fm.owner = (T.npts fm.owner : Int) - 1 := by
+  have h : getClk (finalClocks [] p) fm.owner = T.npts fm.owner := by
+    rw [finalClocks_eq, hp.1.countP_eq]
+    have h0 : getClk [] fm.owner = 0 := by simp [getClk]
+    rw [h0, Nat.zero_add]
     have := countP_cross_finish (T := T) hF hfm hfin (fun _ => true)
     simp only [Bool.and_true] at this
     rw [this]; simp
@@ -175,8 +178,8 @@ theorem C08_loop (mods : List Mod) (T : Times) (hM : T.StrictMono)
     let p := makePlan T fl
     p.Pairwise (fun a b => a.time ≤ b.time) ∧
     p.Pairwise (fun a b => a.time = b.time → a.order < b.order) ∧
-    (∀ ec ∈ trace (fun _ => 0) p, ec.2 = ec.1.k) ∧
-    (∀ f ∈ fl, finalClocks (fun _ => 0) p f.owner = T.npts f.owner) := by
+    (∀ ec ∈ trace [] p, ec.2 = ec.1.k) ∧
+    (∀ f ∈ fl, getClk (finalClocks [] p) f.owner = T.npts f.owner) := by
   intro fl p
   obtain ⟨hO, hF, hE⟩ := C08_collect_wellformed mods
   have hp := C08_makePlan_isPlan T fl
@@ -185,6 +188,12 @@ theorem C08_loop (mods : List Mod) (T : Times) (hM : T.StrictMono)
   obtain ⟨fm, hfm, how, hfin⟩ := hE f hf
   rw [← how]
   exact (C08_final_clocks hp hF hfm hfin).1
+
+/-- The executable checks the driver evaluates on every correspondence case imply the hypotheses of the theorems. -/
+theorem C08_checks_sound {T : Times} {fl : List Func} {n : Nat} :
+    (separatedFast T fl n = true → Separated T fl n) ∧ (separatedB T fl n = true → Separated T fl n) ∧
+    (∀ owners, strictMonoB T owners = true → ∀ m ∈ owners, ∀ i j, i < j → j < T.npts m → T.tv m i < T.tv m j) :=
+  ⟨separatedFast_sound, separatedB_sound, fun _ h => strictMonoB_sound h⟩
 
 /-! ### The excluded point of `Separated` is real (known finding C08-tiebreak) -/
 
@@ -235,9 +244,8 @@ example : (collect Gen.collectFuncs exampleMods).length = 26 := by decide
 example : (makePlanI exampleTimes (collect Gen.collectFuncs exampleMods)).length = 80 := by decide
 /-- the clocks observed along the example's plan are the scheduled indices (a test of one instance; the theorem
     `C08_clock` covers all) -/
-example : (trace (fun _ => 0) (makePlanI exampleTimes (collect Gen.collectFuncs exampleMods))).all
+example : (trace [] (makePlanI exampleTimes (collect Gen.collectFuncs exampleMods))).all
     (fun ec => ec.2 == ec.1.k) = true := by decide
-example : (List.range 6).map (finalClocks (fun _ => 0) (makePlanI exampleTimes (collect Gen.collectFuncs exampleMods)))
-    = [3, 3, 3, 5, 2, 2] := by decide
+example : finalClocks [] (makePlanI exampleTimes (collect Gen.collectFuncs exampleMods)) = [3, 3, 3, 5, 2, 2] := by decide
 
 end StarsimModel.C08
